@@ -132,12 +132,12 @@ def SwComp.validate (sc : SwComp) : Outcome Unit :=
   (filterError sc.getSignerID).bind fun _ =>
   filterError sc.getMeasurementDesc
 
-/-- `SwComponents.Values()`: validates every element in order.  `sc.Validate()`
-    has a value receiver, so calling it on a nil `*SwComponent` dereferences
-    nil: a panic. -/
+/-- `SwComponents.Values()`: validates every element in order; a nil `*SwComponent`
+    (what decoding a null array element yields) is a wrong-syntax error (fix 41aaac8;
+    before it, the value-receiver call on the nil pointer panicked). -/
 def valuesOf : List (Option SwComp) → Outcome (List SwComp)
   | [] => .ok []
-  | none :: _ => .panic "SwComponents.Values: nil *SwComponent"
+  | none :: _ => .err eWrongSyntax
   | some sc :: rest =>
     match sc.validate with
     | .ok _ => (valuesOf rest).bind fun l => .ok (sc :: l)
